@@ -28,3 +28,4 @@ def run(ctx):
                     'a chain cannot be mutated while a Walker borrows it (compile-fail witness E0502 with compiling twin)')
     chainrules.styled_list_rule(ctx, facts, "W5")
     shared.undo_component(ctx, facts, "W6", "stepping backward unmakes moves on the walker's board")
+    shared.uci_component(ctx, facts, "W7", "the chain's UCI text is replayed through make::Uci: every printed move must be read back as itself on its position", ctx.tier == "thorough")
